@@ -271,3 +271,77 @@ Theorem class_template_tree n dt h (w : wclass) T :
   ev (fun f => body (S (S (esize (WClass w)))) n f dt None 0 0 (ktok T_template :: tlist_toks h ++ welem_toks (WClass w) ++ T))
      (DOk ([ITemplate [h] (wclass_spec 0 w)], 0, T)).
 Proof. intros. apply class_template_tree_k; [lia|assumption|assumption|assumption]. Qed.
+
+(* ------------------------------------------------------------------ *)
+(* opaque enum declarations: enum [class|struct] E : base ; *)
+
+Lemma enum_fwd_written key name p X :
+  enum_key key -> base_ok p (ktok SEMI :: X) ->
+  class_stmt_head false false (map ktok key ++ mkTk T_NAME name :: ktok COLON :: pn2_toks p ++ ktok SEMI :: X)
+  = CHEnumFwd mods0 key (Some name) (pn2_out p) X.
+Proof.
+  intros Hk Hb.
+  set (B := ktok SEMI :: X).
+  set (Y := ktok COLON :: pn2_toks p ++ B).
+  unfold class_stmt_head.
+  assert (Hck : ckey_loop mods0 (map ktok key ++ mkTk T_NAME name :: Y) = Some (DOk (mods0, key, Some name, Y))).
+  { destruct Hk as [E|[E|E]]; rewrite E; reflexivity. }
+  rewrite Hck.
+  assert (Hsl : spec_loop mods0 (Some 0) Y = DOk (mods0, 0, Y)) by reflexivity.
+  rewrite Hsl.
+  assert (Hce : class_enum key mods0 false false false Y = DOk (CEEnum (ktok COLON), pn2_toks p ++ B)).
+  { destruct Hk as [E|[E|E]]; rewrite E; reflexivity. }
+  rewrite Hce.
+  pose proof (first_not_compound p _ Hb) as Hc. destruct Hb as [Hok _]. fold B in Hc, Hok.
+  unfold enum_head. change (is T_LIT_58 (ktok COLON)) with true. cbn iota.
+  destruct (pn2_toks p ++ B) as [|b0 r0] eqn:E; [contradiction|].
+  rewrite Hc. rewrite <- E. rewrite (pqname_roundtrip p B Hok). unfold B.
+  change (is SEMI (ktok SEMI)) with true. cbn iota. reflexivity.
+Qed.
+
+Lemma body_step_enumfwd_c k' n f dt cls dcls acc aid t r m key name q r1 :
+  is_decl_head t -> class_stmt_head false false (t :: r) = CHEnumFwd m key (Some name) q r1 ->
+  body (S k') n f dt (Some (cls, dcls)) acc aid (t :: r)
+  = match body k' n f dt (Some (cls, dcls)) acc aid r1 with
+    | DOk (l, a, rr) => DOk (IEnumFwd acc key name q :: l, a, rr)
+    | DErr e => DErr e
+    end.
+Proof. intros Hh Hc. unfold is_decl_head in Hh. cbn [body]. rewrite Hh, Hc. reflexivity. Qed.
+
+Lemma body_step_enumfwd_n k' n f dt aid t r m key name q r1 :
+  is_decl_head t -> class_stmt_head false false (t :: r) = CHEnumFwd m key (Some name) q r1 ->
+  body (S k') n f dt None 0 aid (t :: r)
+  = match body k' n f dt None 0 aid r1 with
+    | DOk (l, a, rr) => DOk (IEnumFwd 0 key name q :: l, a, rr)
+    | DErr e => DErr e
+    end.
+Proof. intros Hh Hc. unfold is_decl_head in Hh. cbn [body]. rewrite Hh, Hc. reflexivity. Qed.
+
+Theorem opaque_enum_is_member n dt cls dcls key name p :
+  enum_key key -> (forall X, base_ok p (ktok SEMI :: X)) ->
+  one_step n dt cls dcls (map ktok key ++ mkTk T_NAME name :: ktok COLON :: pn2_toks p ++ [ktok SEMI])
+           (fun acc => IEnumFwd acc key name (pn2_out p)).
+Proof.
+  intros Hk Hb rest. exists 0%nat. intros f _ k' acc aid.
+  pose proof (enum_fwd_written key name p rest Hk (Hb rest)) as Hh.
+  destruct (enum_key_decl_head key name (ktok COLON :: pn2_toks p ++ ktok SEMI :: rest) Hk) as (t & r & E & Hd).
+  replace ((map ktok key ++ mkTk T_NAME name :: ktok COLON :: pn2_toks p ++ [ktok SEMI]) ++ rest)
+    with (map ktok key ++ mkTk T_NAME name :: ktok COLON :: pn2_toks p ++ ktok SEMI :: rest)
+    by (rewrite <- app_assoc; cbn [app]; rewrite <- app_assoc; reflexivity).
+  rewrite E in *.
+  now rewrite (body_step_enumfwd_c k' n f dt cls dcls acc aid t _ _ _ _ _ _ Hd Hh).
+Qed.
+
+Theorem opaque_enum_is_statement n dt key name p :
+  enum_key key -> (forall X, base_ok p (ktok SEMI :: X)) ->
+  one_step_ns n dt (map ktok key ++ mkTk T_NAME name :: ktok COLON :: pn2_toks p ++ [ktok SEMI]) (IEnumFwd 0 key name (pn2_out p)).
+Proof.
+  intros Hk Hb rest. exists 0%nat. intros f _ k' aid.
+  pose proof (enum_fwd_written key name p rest Hk (Hb rest)) as Hh.
+  destruct (enum_key_decl_head key name (ktok COLON :: pn2_toks p ++ ktok SEMI :: rest) Hk) as (t & r & E & Hd).
+  replace ((map ktok key ++ mkTk T_NAME name :: ktok COLON :: pn2_toks p ++ [ktok SEMI]) ++ rest)
+    with (map ktok key ++ mkTk T_NAME name :: ktok COLON :: pn2_toks p ++ ktok SEMI :: rest)
+    by (rewrite <- app_assoc; cbn [app]; rewrite <- app_assoc; reflexivity).
+  rewrite E in *.
+  now rewrite (body_step_enumfwd_n k' n f dt aid t _ _ _ _ _ _ Hd Hh).
+Qed.
